@@ -86,6 +86,14 @@ Shape(name) ==
           objs |-> {Roa(1, 1, <<0,1>>, 1), Roa(1, 2, <<1,0>>, 2), Roa(2, 1, <<0,0>>, 1), Roa(3, 1, <<1,1>>, 2),
                     Roa(4, 1, <<1>>, 1)},
           tals |-> <<1>>]
+    [] name = "families" ->
+         \* prefixes tagged with their address family (first element 4 or 6: never a prefix of one another):
+         \* CA2 holds IPv6 ::/1, CA3 holds IPv4 0.0.0.0/1, the TA has a ROA in either family next to them.
+         \* A rejected CA2 makes <<6,0,...>> unsafe and says nothing about <<4,0,...>>, although the two look
+         \* alike once both are written as left-aligned bit strings (the representation the filter works on).
+         [cas  |-> <<Ca(0, 1, 1, {<<4>>, <<6>>}), Ca(1, 2, 2, {<<6, 0>>}), Ca(1, 3, 3, {<<4, 0>>})>>,
+          objs |-> {Roa(1, 1, <<4, 0, 1>>, 1), Roa(1, 2, <<6, 0, 1>>, 2), Roa(2, 1, <<6, 0, 0>>, 1), Roa(3, 1, <<4, 0, 0>>, 2)},
+          tals |-> <<1>>]
     [] name = "loop" ->
          \* CA3 issues a certificate for the TA's key (CA4) and one for its own parent's key (CA5)
          [cas  |-> <<Ca(0, 1, 1, {<<>>}), Ca(1, 2, 1, {<<0>>, <<1>>}), Ca(2, 3, 1, {<<0>>}), Ca(3, 1, 1, {<<0>>}),
